@@ -95,3 +95,43 @@ __CPROVER_loop_invariant(0 <= i && i <= self->m_size) __CPROVER_decreases(self->
 /* public operations keep the invariant */
 #define NV_CONTRACT_bundle_append3 NV_BUNDLE_PRE(1) NV_BUNDLE_ASSIGNS __CPROVER_ensures(NV_BUNDLE_INV)
 #define NV_CONTRACT_bundle_moveto NV_BUNDLE_PRE(1) __CPROVER_assigns(self->m_size, nv_copy_n, nv_nth_k, __CPROVER_object_whole(self->m_bundleE.p), __CPROVER_object_whole(self->m_alphas.p), self->m_fx) __CPROVER_ensures(NV_BUNDLE_INV)
+
+/* ---- constructor bundle_t(state, max_size): allocates capacity() = max_size + 1 >= 3 slots (max_size is the parameter
+ * <prefix>::bundle::max_size, domain [2, 1000], read by bundle_t::make), copies the proximity centre from the state and
+ * appends the first point: it establishes the shape every other contract assumes (NV_BUNDLE_SHAPE) and the invariant */
+#include <stdlib.h>
+struct nv_cstate { struct nv_t1d m_x, m_gx; double m_fx; };       /* solver_state_t as the bundle sees it */
+static struct nv_t1d* nv_cstate_x(const struct nv_cstate* s) { return (struct nv_t1d*)&s->m_x; }
+static struct nv_t1d* nv_cstate_gx(const struct nv_cstate* s) { return (struct nv_t1d*)&s->m_gx; }
+static double nv_cstate_fx(const struct nv_cstate* s) { return s->m_fx; }
+/* tensor constructors tensor_t(dims...): storage for exactly the product of the dimensions */
+static struct nv_mat nv_mat_make(int64_t rows, int64_t cols)
+{ __CPROVER_assert(rows >= 0 && cols >= 0, "matrix_t(rows, cols): non-negative dimensions"); struct nv_mat m; m.rows = rows; m.cols = cols; return m; }
+static struct nv_t1d nv_t1d_make(int64_t n)
+{
+  __CPROVER_assert(n >= 0 && n <= NV_MAXN, "vector_t(n): non-negative dimension");
+  struct nv_t1d t; t.n = n; t.p = (double*)malloc((size_t)(n > 0 ? n : 1) * sizeof(double)); __CPROVER_assume(t.p != NULL);
+  return t;
+}
+/* vector_cmap_t(const vector_t&): a view of a caller's vector (what = 0: not one of the bundle's buffers) */
+static struct nv_slice1 nv_slice_of(const struct nv_t1d* v) { struct nv_slice1 s; s.begin = 0; s.end = v->n; s.what = 0; return s; }
+#define NV_CONTRACT_bundle_ctor \
+__CPROVER_requires(__CPROVER_is_fresh(self, sizeof(*self)) && __CPROVER_is_fresh(state, sizeof(*state)) && 2 <= max_size && max_size <= 1000 \
+  && state->m_x.n >= 0 && state->m_x.n <= NV_MAXN && state->m_gx.n == state->m_x.n) \
+__CPROVER_assigns(*self, nv_copy_n, nv_nth_k) \
+__CPROVER_ensures(NV_CAP(self) == max_size + 1 && NV_CAP(self) >= 3 && self->m_bundleE.n == NV_CAP(self) && self->m_bundleS.rows == NV_CAP(self) && self->m_bundleS.cols == state->m_x.n) \
+__CPROVER_ensures(__CPROVER_is_fresh(self->m_bundleE.p, self->m_bundleE.n * sizeof(double)) && __CPROVER_is_fresh(self->m_alphas.p, self->m_alphas.n * sizeof(double))) \
+__CPROVER_ensures(0 < self->m_size && self->m_size < NV_CAP(self)) \
+__CPROVER_ensures(self->m_x.n == state->m_x.n && self->m_gx.n == state->m_gx.n && NV_SAME(self->m_fx, state->m_fx))
+
+/* ---- econverged / sconverged (the stopping test of the property): smeared_e <= eps * sqrt(n), |smeared_s|_2 <= eps * sqrt(n) */
+double __CPROVER_uninterpreted_sqrt(double);
+double nv_g_smeared_e, nv_g_smeared_s_norm;       /* ghost: e().dot(alpha()), |S()^T alpha()|_2 of the current bundle (erased numerics) */
+static double nv_smeared_e(const struct nv_bundle* b) { return nv_g_smeared_e; }
+static double nv_smeared_s_norm(void) { return nv_g_smeared_s_norm; }
+static double nv_usqrt(double a) { return __CPROVER_uninterpreted_sqrt(a); }
+#define NV_TOL NV_FMUL(epsilon, __CPROVER_uninterpreted_sqrt((double)self->m_x.n))
+#define NV_CONTRACT_bundle_econverged __CPROVER_requires(__CPROVER_is_fresh(self, sizeof(*self)) && self->m_x.n >= 0) __CPROVER_assigns() \
+__CPROVER_ensures(__CPROVER_return_value == (nv_g_smeared_e <= NV_TOL))
+#define NV_CONTRACT_bundle_sconverged __CPROVER_requires(__CPROVER_is_fresh(self, sizeof(*self)) && self->m_x.n >= 0) __CPROVER_assigns() \
+__CPROVER_ensures(__CPROVER_return_value == (nv_g_smeared_s_norm <= NV_TOL))
